@@ -66,9 +66,14 @@ def run_variant(repo, v):
                 return {'id': v['id'], 'status': 'skipped', 'why': 'edit does not apply: %s' % ed['old'][:50]}
             s = s.replace(ed['old'], ed['new'], ed.get('count', 1))
             open(p, 'w', encoding='utf-8').write(s)
+        env = dict(os.environ)
+        if os.environ.get('SELFTEST_FAST') == '1' and v['expect'] != 'silent':
+            # iteration mode: a must-fire variant is decided on the source as written only (the full mode also shows that no
+            # normalised view clears it, which costs one re-analysis per view)
+            env['SA_NO_VIEWS'] = '1'
         r = subprocess.run([os.path.join(VERIF, 'check'), v['property'], '--repo', d, '--tier', v.get('tier', 'quick'),
                             '--quiet', '--no-evidence'],
-                           capture_output=True, text=True, timeout=600)
+                           capture_output=True, text=True, timeout=900, env=env)
         out = r.stdout + r.stderr
         lines = [l for l in out.splitlines() if l.startswith(('FINDING', 'KNOWN-FINDING', 'ANALYSIS-ERROR'))]
         new = [l for l in lines if l.startswith('FINDING')]
